@@ -5,7 +5,7 @@
      identity on EVERY text whose leaves are fixed points (join . split = id);
    - VARIES_i components;
    - the generic field loop of a segment. *)
-From Coq Require Import List Bool Arith ZArith NArith Lia Init.Byte.
+From Coq Require Import List Bool Arith ZArith NArith Lia Init.Byte FinFun.
 From HL7 Require Import Lib.Str Model.Ec Model.Result Model.Ref Model.Tree Model.Parser Model.Encode.
 From HL7 Require Import Proofs.SplitJoin Proofs.LevelCodec Proofs.RoundTripStr.
 Import ListNotations.
@@ -238,6 +238,514 @@ Proof.
   rewrite enc_slots_all.
   - rewrite map_enc_st_sub. apply bjoin_bsplit.
   - intros H. apply map_eq_nil in H. exact (bsplit_ne _ _ H).
+Qed.
+
+(* ------------------------------------------------------------------ *)
+(* fields                                                               *)
+
+(* the Field object parse_field starts from *)
+Definition field_ctor (name : option str) (ref : option sref) (fv : bool) : result field :=
+  match mk_field t TOLERANT name None ref with
+  | Err (HL7 EInvalidName) =>
+      if fv then mk_field t TOLERANT name None (Some varies_leaf) else mk_field t TOLERANT None None ref
+  | r => r
+  end.
+
+Lemma parse_field_unfold text name ref fv :
+  parse_field t TOLERANT e leaf text name ref fv =
+  (do f <- field_ctor name ref fv;
+   if is_msh12 name then
+     do s <- mk_subcomponent t TOLERANT leaf None (Some (unbs "ST")) text None;
+     do c0 <- mk_component t TOLERANT None (Some (unbs "ST")) None;
+     do c <- add_subs t TOLERANT c0 [s];
+     add_comps t TOLERANT f [c]
+   else
+     do kids <- parse_components t TOLERANT e leaf text (f_dt f) (f_st f);
+     let f := if negb (is_strict TOLERANT) && base (f_dt f) && Nat.ltb 1 (length kids)
+              then mk_field_rec (f_name f) None (f_st f) (f_children f) else f in
+     add_comps t TOLERANT f kids).
+Proof. reflexivity. Qed.
+
+Definition not_msh12 (n : str) : Prop :=
+  opt_eqb (Some n) (Some (unbs "MSH_1")) || opt_eqb (Some n) (Some (unbs "MSH_2")) = false.
+
+(* --- a field of base datatype d: unnamed components --- *)
+
+Definition comps_fix (d : str) (text : str) : Prop := Forall (subs_fix d) (bsplit (csep e) text).
+
+Definition base_field (n d : str) (sto : option structure) (text : str) : field :=
+  let cs := bsplit (csep e) text in
+  mk_field_rec (Some n) (if Nat.ltb 1 (length cs) then None else Some d) sto (map (unnamed_comp d) cs).
+
+Lemma parse_components_aux_base d st l :
+  base (Some d) = true -> is_varies (Some d) = false ->
+  Forall (fun p => subs_fix d (snd p)) l ->
+  parse_components_aux t TOLERANT e leaf (Some d) st l = Ok (map (fun p => unnamed_comp d (snd p)) l).
+Proof.
+  intros Hb Hv. induction 1 as [|[i s] l Hs _ IH]; [reflexivity|].
+  cbn [parse_components_aux]. rewrite Hb. cbn [opt_is_none]. rewrite orb_true_r. cbn [orb].
+  cbn [snd] in Hs. rewrite (parse_component_unnamed d s Hb Hv Hs), IH. reflexivity.
+Qed.
+
+Lemma parse_components_base d st text :
+  base (Some d) = true -> is_varies (Some d) = false -> comps_fix d text ->
+  parse_components t TOLERANT e leaf text (Some d) st = Ok (map (unnamed_comp d) (bsplit (csep e) text)).
+Proof.
+  intros Hb Hv Hs. unfold parse_components. rewrite parse_components_aux_base; auto.
+  - now rewrite <- map_map, indexed_snd.
+  - unfold comps_fix in Hs. rewrite <- (indexed_snd (bsplit (csep e) text)) in Hs.
+    now rewrite Forall_map in Hs.
+Qed.
+
+Lemma add_comps_step_base d f k ks : base (Some d) = true ->
+  c_name k = Some d -> (c_dt k = None \/ c_dt k = Some d) ->
+  (f_dt f = None \/ (f_dt f = Some d /\ f_children f = [])) ->
+  add_comps t TOLERANT f (k :: ks) =
+  add_comps t TOLERANT (mk_field_rec (f_name f) (f_dt f) (f_st f) (f_children f ++ [k])) ks.
+Proof.
+  intros Hb Hn Hk Hf. cbn [add_comps].
+  assert (G : nonempty_name (f_name f) && base (f_dt f) && Nat.leb 1 (length (f_children f)) = false).
+  { destruct Hf as [->|[_ ->]]; [rewrite base_none|]; cbn; now rewrite ?andb_false_r. }
+  rewrite G, Hn.
+  rewrite (vcc_base_child _ (f_dt f) _ d (c_dt k) Hb); [reflexivity| |exact Hk].
+  destruct Hf as [->|[-> _]]; auto.
+Qed.
+
+Lemma unnamed_comp_name d s : c_name (unnamed_comp d s) = Some d.
+Proof. reflexivity. Qed.
+Lemma unnamed_comp_dt d s : c_dt (unnamed_comp d s) = None \/ c_dt (unnamed_comp d s) = Some d.
+Proof. unfold unnamed_comp. cbv zeta. cbn [c_dt]. destruct (Nat.ltb 1 _); auto. Qed.
+
+Lemma add_comps_base_none d : forall cs f, base (Some d) = true -> f_dt f = None ->
+  add_comps t TOLERANT f (map (unnamed_comp d) cs) =
+  Ok (mk_field_rec (f_name f) (f_dt f) (f_st f) (f_children f ++ map (unnamed_comp d) cs)).
+Proof.
+  induction cs as [|s cs IH]; intros f Hb Hf.
+  - cbn [map add_comps]. rewrite app_nil_r. now destruct f.
+  - cbn [map]. rewrite (add_comps_step_base d) by (auto using unnamed_comp_name, unnamed_comp_dt).
+    rewrite IH by auto. cbn [f_name f_dt f_st f_children]. now rewrite <- app_assoc.
+Qed.
+
+Lemma add_comps_base_one d s f : base (Some d) = true -> f_dt f = Some d -> f_children f = [] ->
+  add_comps t TOLERANT f [unnamed_comp d s] = Ok (mk_field_rec (f_name f) (f_dt f) (f_st f) [unnamed_comp d s]).
+Proof.
+  intros Hb Hf Hk. rewrite (add_comps_step_base d) by (auto using unnamed_comp_name, unnamed_comp_dt).
+  cbn [add_comps]. now rewrite Hk.
+Qed.
+
+Lemma parse_field_base text name ref fv n d sto :
+  field_ctor name ref fv = Ok (mk_field_rec (Some n) (Some d) sto []) -> is_msh12 name = false ->
+  base (Some d) = true -> is_varies (Some d) = false -> comps_fix d text ->
+  parse_field t TOLERANT e leaf text name ref fv = Ok (base_field n d sto text).
+Proof.
+  intros Hc Hm Hb Hv Hs. rewrite parse_field_unfold, Hc, Hm. cbn [bind f_dt f_st].
+  rewrite (parse_components_base d sto text Hb Hv Hs). cbn [bind is_strict negb andb].
+  rewrite Hb. cbn [andb]. rewrite map_length. unfold base_field. cbv zeta. unfold str.
+  destruct (Nat.ltb 1 (length (bsplit (csep e) text))) eqn:L.
+  - rewrite add_comps_base_none by auto. reflexivity.
+  - destruct (bsplit (csep e) text) as [|s [|s' r]] eqn:E.
+    + exfalso. exact (bsplit_ne _ _ E).
+    + cbn [map]. rewrite add_comps_base_one by auto. reflexivity.
+    + discriminate.
+Qed.
+
+Lemma enc_field_base n d sto text :
+  not_msh12 n -> base (Some d) = true -> is_varies (Some d) = false ->
+  enc_field t e (base_field n d sto text) = Ok text.
+Proof.
+  intros Hm Hb Hv. unfold enc_field, base_field. cbv zeta. cbn [f_name f_dt f_children].
+  unfold not_msh12 in Hm. rewrite Hm.
+  set (dt := if Nat.ltb 1 (length (bsplit (csep e) text)) then None else Some d).
+  assert (is_varies dt = false) as -> by (subst dt; destruct (Nat.ltb 1 _); auto).
+  assert (base dt || opt_is_none dt = true) as ->.
+  { subst dt; destruct (Nat.ltb 1 _); [reflexivity|now rewrite Hb]. }
+  rewrite enc_slots_all.
+  - rewrite map_map. rewrite (map_ext _ (fun s => s)) by (intros s; now apply enc_comp_unnamed).
+    rewrite map_id. now rewrite bjoin_bsplit.
+  - intros H. apply map_eq_nil in H. exact (bsplit_ne _ _ H).
+Qed.
+
+(* --- a field of datatype varies: components VARIES_1 .. VARIES_m, all materialised --- *)
+
+Hypothesis Hvar : base (Some (unbs "varies")) = false.
+
+Definition vkids (l : list (nat * str)) : list comp := map (fun p => varies_comp (fst p) (snd p)) l.
+
+Definition var_field (n : str) (sto : option structure) (text : str) : field :=
+  mk_field_rec (Some n) (Some (unbs "varies")) sto (vkids (indexed (bsplit (csep e) text))).
+
+Definition vcomps_fix (text : str) : Prop := Forall (subs_fix (unbs "ST")) (bsplit (csep e) text).
+
+Lemma name_idx_varies_starts i : bstarts (unbs "VARIES_") (name_idx VARIES i) = true.
+Proof. unfold name_idx. rewrite app_assoc. apply starts_with_app. Qed.
+
+Lemma parse_components_aux_varies st l :
+  has_map st = false -> Forall (fun p => subs_fix (unbs "ST") (snd p)) l ->
+  parse_components_aux t TOLERANT e leaf (Some (unbs "varies")) st l = Ok (vkids l).
+Proof.
+  intros Hm. induction 1 as [|[i s] l Hs _ IH]; [reflexivity|].
+  cbn [parse_components_aux]. rewrite Hvar. cbn [opt_is_none orb].
+  change (is_varies (Some (unbs "varies"))) with true. cbv iota. rewrite Hm.
+  change (name_idx (unbs "VARIES") i) with (name_idx VARIES i).
+  rewrite name_idx_varies_starts, !orb_true_r.
+  cbn [snd] in Hs. rewrite (parse_component_varies i s Hs), IH. reflexivity.
+Qed.
+
+Lemma vcc_varies_child pn pst i :
+  valid_child_complex t TOLERANT pn (Some (unbs "varies")) pst (Some (name_idx VARIES i)) None = Ok true.
+Proof.
+  unfold valid_child_complex. rewrite Hvar.
+  change (is_varies (Some (unbs "varies"))) with true.
+  rewrite valid_child_name_idx. reflexivity.
+Qed.
+
+Lemma add_comps_varies : forall l f, f_dt f = Some (unbs "varies") ->
+  add_comps t TOLERANT f (vkids l) =
+  Ok (mk_field_rec (f_name f) (f_dt f) (f_st f) (f_children f ++ vkids l)).
+Proof.
+  induction l as [|[i s] l IH]; intros f Hf.
+  - cbn [vkids map add_comps]. rewrite app_nil_r. now destruct f.
+  - cbn [vkids map add_comps fst snd]. rewrite Hf, Hvar. rewrite andb_false_r. cbn [andb].
+    cbn [varies_comp c_name c_dt]. rewrite vcc_varies_child. cbn [bind negb].
+    rewrite card_ok_tolerant. cbn [negb].
+    fold (varies_comp i s). fold (vkids l). rewrite IH by reflexivity.
+    cbn [f_name f_dt f_st f_children]. now rewrite <- app_assoc.
+Qed.
+
+Lemma parse_field_varies text name ref fv n sto :
+  field_ctor name ref fv = Ok (mk_field_rec (Some n) (Some (unbs "varies")) sto []) ->
+  is_msh12 name = false -> has_map sto = false -> vcomps_fix text ->
+  parse_field t TOLERANT e leaf text name ref fv = Ok (var_field n sto text).
+Proof.
+  intros Hc Hm Hh Hs. rewrite parse_field_unfold, Hc, Hm. cbn [bind f_dt f_st].
+  unfold parse_components. rewrite (parse_components_aux_varies sto _ Hh).
+  2:{ unfold vcomps_fix in Hs. rewrite <- (indexed_snd (bsplit (csep e) text)) in Hs.
+      now rewrite Forall_map in Hs. }
+  cbn [bind is_strict negb andb]. rewrite Hvar. cbn [andb].
+  rewrite add_comps_varies by reflexivity. reflexivity.
+Qed.
+
+(* encoding: Field._get_children for varies finds VARIES_1 .. VARIES_m by name *)
+Lemma varies_index_idx i : varies_index (Some (name_idx VARIES i)) = N.of_nat i.
+Proof.
+  unfold varies_index. change (Some (unbs "VARIES")) with (Some VARIES).
+  rewrite valid_child_name_idx, streqb_refl.
+  change 7 with (S (length VARIES)). rewrite name_idx_drop. apply nat_to_str_py_val.
+Qed.
+
+Lemma vkids_last : forall cs a,
+  fold_left (fun m c => N.max m (varies_index (c_name c))) (vkids (combine (seq (S a) (length cs)) cs)) (N.of_nat a)
+  = N.of_nat (a + length cs).
+Proof.
+  induction cs as [|s cs IH]; intros a.
+  - cbn. f_equal. lia.
+  - cbn [length seq combine vkids map fold_left fst snd varies_comp c_name].
+    rewrite varies_index_idx. replace (N.max (N.of_nat a) (N.of_nat (S a))) with (N.of_nat (S a)) by lia.
+    fold (vkids (combine (seq (S (S a)) (length cs)) cs)). rewrite IH. f_equal. lia.
+Qed.
+
+Lemma vkids_groups_ok : forall cs a,
+  groups_ok c_name (map (name_idx VARIES) (seq a (length cs)))
+            (map (fun c => [c]) (vkids (combine (seq a (length cs)) cs))).
+Proof.
+  induction cs as [|s cs IH]; intros a; [exact I|].
+  cbn [length seq combine vkids map groups_ok fst snd]. split.
+  - intros x [<-|[]]. reflexivity.
+  - apply IH.
+Qed.
+
+Lemma concat_singletons {A} (l : list A) : concat (map (fun c => [c]) l) = l.
+Proof. induction l as [|x l IH]; [reflexivity|]. cbn. now rewrite IH. Qed.
+
+Lemma singletons_no_trail {A} (l : list A) : no_trail (map (fun c => [c]) l).
+Proof.
+  intros l' H. destruct l as [|x l] using rev_ind.
+  - destruct l'; discriminate.
+  - rewrite map_app in H. cbn [map] in H. apply app_inj_tail in H. destruct H; discriminate.
+Qed.
+
+Lemma name_idx_NoDup p a n : NoDup (map (name_idx p) (seq a n)).
+Proof.
+  apply Injective_map_NoDup; [|apply seq_NoDup].
+  intros i j. apply name_idx_inj.
+Qed.
+
+Lemma varies_slots_vkids cs :
+  varies_slots (vkids (indexed cs)) = map (fun c => Some [c]) (vkids (indexed cs)).
+Proof.
+  unfold varies_slots, indexed.
+  pose proof (vkids_last cs 0) as L. cbn [N.of_nat Nat.add] in L. rewrite L. rewrite Nat2N.id.
+  set (kids := vkids (combine (seq 1 (length cs)) cs)).
+  rewrite (filter_nothing comp_unknown).
+  2:{ intros x Hx. subst kids. unfold vkids in Hx. apply in_map_iff in Hx.
+      destruct Hx as [[i s] [<- _]]. reflexivity. }
+  cbn [map]. rewrite app_nil_r.
+  rewrite <- (map_map (name_idx VARIES) (fun k => named c_name k kids)).
+  pose proof (fill_by_name c_name (map (name_idx VARIES) (seq 1 (length cs)))
+                (map (fun c => [c]) kids) [] (name_idx_NoDup _ _ _) (vkids_groups_ok cs 1)) as F.
+  cbn [app] in F. rewrite concat_singletons in F.
+  change (name_idx (unbs "VARIES")) with (name_idx VARIES).
+  rewrite F by (intros x []).
+  rewrite trim_slots_canon by apply singletons_no_trail.
+  rewrite map_map. apply map_ext. reflexivity.
+Qed.
+
+Lemma flat_map_map {A B C} (g : A -> B) (f : B -> list C) l :
+  flat_map f (map g l) = concat (map (fun x => f (g x)) l).
+Proof. induction l as [|x l IH]; [reflexivity|]. cbn [map flat_map concat]. now rewrite IH. Qed.
+
+Lemma enc_slots_singletons {A} (enc : A -> str) sep (l : list A) :
+  enc_slots enc sep (map (fun c => Some [c]) l) = bjoin sep (map enc l).
+Proof.
+  unfold enc_slots. f_equal. rewrite flat_map_map. cbn [map].
+  induction l as [|x l IH]; [reflexivity|]. cbn [map concat app]. now rewrite IH.
+Qed.
+
+Lemma enc_vkids l : map (enc_comp t e) (vkids l) = map snd l.
+Proof.
+  unfold vkids. rewrite map_map. apply map_ext. intros [i s]. apply enc_comp_varies.
+Qed.
+
+Lemma enc_field_varies n sto text : not_msh12 n -> enc_field t e (var_field n sto text) = Ok text.
+Proof.
+  intros Hm. unfold enc_field, var_field. cbn [f_name f_dt f_children].
+  unfold not_msh12 in Hm. rewrite Hm.
+  change (is_varies (Some (unbs "varies"))) with true. cbv iota.
+  rewrite varies_slots_vkids. f_equal.
+  now rewrite enc_slots_singletons, enc_vkids, indexed_snd, bjoin_bsplit.
+Qed.
+
+(* ------------------------------------------------------------------ *)
+(* the field loop of a segment                                          *)
+
+Lemma parse_reps_all name ref fv : forall reps xs,
+  Forall2 (fun r x => parse_field t TOLERANT e leaf r name ref fv = Ok x) reps xs ->
+  parse_reps t TOLERANT e leaf reps name ref fv = Ok xs.
+Proof.
+  induction 1 as [|r x reps xs H _ IH]; [reflexivity|].
+  cbn [parse_reps]. rewrite H, IH. reflexivity.
+Qed.
+
+(* the segment name is not MSH: no MSH_1 / MSH_2 special cases *)
+Definition no_msh (prefix : str) : Prop :=
+  forall i, streqb (upper (name_idx prefix i)) (unbs "MSH_2") = false /\
+            streqb (upper (name_idx prefix i)) (unbs "MSH_1") = false.
+
+Lemma no_msh_of a b c : upper [a; b; c] <> unbs "MSH" -> no_msh [a; b; c].
+Proof.
+  intros H i. rewrite name_idx_upper. unfold name_idx.
+  split; destruct (streqb_spec (upper [a; b; c] ++ unbs "_" ++ nat_to_str i) (unbs "MSH_2")) as [E|E];
+    destruct (streqb_spec (upper [a; b; c] ++ unbs "_" ++ nat_to_str i) (unbs "MSH_1")) as [E1|E1];
+    try reflexivity; exfalso; apply H;
+    cbn [upper map app unbs] in *; congruence.
+Qed.
+
+(* what one field text contributes: nothing when blank, else its repetitions *)
+Definition field_group (prefix : str) (st : option structure) (fv : bool) (i : nat) (f : str) (g : list field) : Prop :=
+  (is_blank f = true /\ g = []) \/
+  (is_blank f = false /\
+   parse_reps t TOLERANT e leaf (bsplit (rsep e) f) (Some (name_idx prefix i))
+              (if has_map st then ref_in st (name_idx prefix i) else None) fv = Ok g).
+
+Lemma parse_fields_aux_groups prefix st fv : no_msh prefix -> forall l gs,
+  Forall2 (fun p g => field_group prefix st fv (fst p) (snd p) g) l gs ->
+  parse_fields_aux t TOLERANT e leaf prefix st fv l = Ok (concat gs).
+Proof.
+  intros Hm. induction 1 as [|[i f] g l gs H _ IH]; [reflexivity|].
+  cbn [parse_fields_aux fst snd] in *. destruct (Hm i) as [M2 M1]. rewrite M2, M1.
+  destruct H as [[Hb ->]|[Hb Hp]]; rewrite Hb; cbn [negb].
+  - cbn [bind]. rewrite IH. reflexivity.
+  - rewrite Hp. cbn [bind]. rewrite IH. reflexivity.
+Qed.
+
+(* --- Segment.add for children named <SEG>_i --- *)
+
+Definition upd (inf : bool) (cur : N) (i : nat) : N := if inf then N.max cur (N.of_nat i) else cur.
+
+Lemma upd_idem inf cur i : upd inf (upd inf cur i) i = upd inf cur i.
+Proof. unfold upd. destruct inf; [lia|reflexivity]. Qed.
+
+Lemma name_idx3_nonempty sn i : length sn = 3 -> nonempty_name (Some (name_idx sn i)) = true.
+Proof. destruct sn as [|a [|b [|c [|]]]]; try discriminate. reflexivity. Qed.
+
+Lemma name_idx3_drop4 sn i : length sn = 3 -> drop 4 (name_idx sn i) = nat_to_str i.
+Proof. intros H. replace 4 with (S (length sn)) by lia. apply name_idx_drop. Qed.
+
+Lemma add_fields_step sn st inf la last ch x rest i :
+  length sn = 3 -> f_name x = Some (name_idx sn i) ->
+  (inf = true \/ opt_is_some (by_name st (name_idx sn i)) = true) ->
+  add_fields t TOLERANT (mk_seg sn st inf la last ch) (x :: rest) =
+  add_fields t TOLERANT (mk_seg sn st inf la (upd inf last i) (ch ++ [x])) rest.
+Proof.
+  intros H3 Hx Hadm. cbn [add_fields]. rewrite Hx. cbn [s_st s_inf s_name s_last s_last_allowed s_children].
+  rewrite valid_child_name_idx, streqb_refl, andb_true_r.
+  assert (A : negb (opt_is_some (by_name st (name_idx sn i)) || opt_is_some (by_long st (name_idx sn i))) && negb inf = false).
+  { destruct Hadm as [->| ->]; [now rewrite andb_false_r|reflexivity]. }
+  rewrite A. rewrite name_idx_starts. cbn [negb]. rewrite card_ok_tolerant. cbn [negb].
+  rewrite (name_idx3_nonempty sn i H3), (name_idx3_drop4 sn i H3).
+  rewrite nat_to_str_py_int, nat_to_str_py_val. unfold upd.
+  destruct inf; cbn [andb]; [|reflexivity].
+  replace (if N.ltb last (N.of_nat i) then N.of_nat i else last) with (N.max last (N.of_nat i)); [reflexivity|].
+  destruct (N.ltb_spec last (N.of_nat i)); lia.
+Qed.
+
+Lemma add_fields_group sn st inf la i : forall g last ch rest,
+  length sn = 3 -> (forall x, In x g -> f_name x = Some (name_idx sn i)) ->
+  (inf = true \/ opt_is_some (by_name st (name_idx sn i)) = true) ->
+  add_fields t TOLERANT (mk_seg sn st inf la last ch) (g ++ rest) =
+  add_fields t TOLERANT (mk_seg sn st inf la (if nilb g then last else upd inf last i) (ch ++ g)) rest.
+Proof.
+  induction g as [|x g IH]; intros last ch rest H3 Hg Hadm.
+  - cbn [app nilb]. now rewrite app_nil_r.
+  - cbn [app nilb]. rewrite (add_fields_step sn st inf la last ch x (g ++ rest) i H3); auto.
+    2:{ apply Hg. now left. }
+    rewrite IH; auto. 2:{ intros y Hy. apply Hg. now right. }
+    rewrite <- app_assoc. cbn [app]. rewrite upd_idem. now destruct g.
+Qed.
+
+(* the last index reached after adding groups numbered a, a+1, ... *)
+Fixpoint last_idx (inf : bool) (a : nat) (gs : list (list field)) (cur : N) : N :=
+  match gs with
+  | [] => cur
+  | g :: gs' => last_idx inf (S a) gs' (if nilb g then cur else upd inf cur a)
+  end.
+
+Fixpoint groups_named (sn : str) (a : nat) (gs : list (list field)) : Prop :=
+  match gs with
+  | [] => True
+  | g :: gs' => (forall x, In x g -> f_name x = Some (name_idx sn a)) /\ groups_named sn (S a) gs'
+  end.
+
+Lemma add_fields_groups sn st inf la : forall gs a last ch,
+  length sn = 3 -> groups_named sn a gs ->
+  (inf = true \/ forall i, a <= i < a + length gs -> opt_is_some (by_name st (name_idx sn i)) = true) ->
+  add_fields t TOLERANT (mk_seg sn st inf la last ch) (concat gs) =
+  Ok (mk_seg sn st inf la (last_idx inf a gs last) (ch ++ concat gs)).
+Proof.
+  induction gs as [|g gs IH]; intros a last ch H3 Hn Hadm.
+  - cbn [concat add_fields last_idx]. now rewrite app_nil_r.
+  - destruct Hn as [Hg Hn]. cbn [concat last_idx].
+    rewrite (add_fields_group sn st inf la a g last ch (concat gs) H3 Hg).
+    2:{ destruct Hadm as [->|H]; [now left|right]. apply H. cbn [length]. lia. }
+    rewrite (IH (S a)); auto.
+    + now rewrite <- app_assoc.
+    + destruct Hadm as [->|H]; [now left|right]. intros i Hi. apply H. cbn [length]. lia.
+Qed.
+
+Lemma last_idx_ge inf : forall gs a cur, (cur <= last_idx inf a gs cur)%N.
+Proof.
+  induction gs as [|g gs IH]; intros a cur; cbn [last_idx]; [lia|].
+  specialize (IH (S a) (if nilb g then cur else upd inf cur a)).
+  destruct (nilb g); [exact IH|]. unfold upd in *. destruct inf; lia.
+Qed.
+
+Lemma last_idx_not_inf : forall gs a cur, last_idx false a gs cur = cur.
+Proof.
+  induction gs as [|g gs IH]; intros a cur; cbn [last_idx]; [reflexivity|].
+  rewrite IH. now destruct (nilb g).
+Qed.
+
+Lemma last_idx_reaches : forall gs a cur g, g <> [] ->
+  (N.of_nat (a + length gs) <= last_idx true a (gs ++ [g]) cur)%N.
+Proof.
+  induction gs as [|g0 gs IH]; intros a cur g Hg.
+  - cbn [app last_idx length]. destruct g; [congruence|]. cbn [nilb upd]. lia.
+  - cbn [app last_idx length]. specialize (IH (S a) (if nilb g0 then cur else upd true cur a) g Hg). lia.
+Qed.
+
+(* --- Segment._get_children + to_er7 --- *)
+
+Lemma enc_reps_all : forall g rs,
+  Forall2 (fun x r => enc_field t e x = Ok r) g rs -> enc_reps t e g = Ok rs.
+Proof.
+  induction 1 as [|x r g rs H _ IH]; [reflexivity|]. cbn [enc_reps]. now rewrite H, IH.
+Qed.
+
+(* a field text and the group of repetitions it was parsed into *)
+Definition group_enc (f : str) (g : list field) : Prop :=
+  (f = [] /\ g = []) \/ (g <> [] /\ exists rs, enc_reps t e g = Ok rs /\ bjoin (rsep e) rs = f).
+
+Lemma enc_seg_slots_groups : forall fs gs, Forall2 group_enc fs gs ->
+  enc_seg_slots t e (map slot_of gs) = Ok fs.
+Proof.
+  induction 1 as [|f g fs gs H _ IH]; [reflexivity|].
+  cbn [map enc_seg_slots]. rewrite IH.
+  destruct H as [[-> ->]|[Hg [rs [Hr <-]]]]; [reflexivity|].
+  destruct g; [congruence|]. cbn [slot_of]. now rewrite Hr.
+Qed.
+
+Lemma group_enc_no_trail fs gs : Forall2 group_enc fs gs -> no_trail fs -> no_trail gs.
+Proof.
+  intros H Hp l' E. subst gs. apply Forall2_app_inv_r in H.
+  destruct H as [p1 [p2 [_ [H2 ->]]]]. inversion H2 as [|s g ps' gs' Hs Hn]; subst.
+  inversion Hn; subst. destruct Hs as [[-> _]|[E _]]; [|congruence]. now apply (Hp p1).
+Qed.
+
+Lemma groups_named_ok sn : forall gs a K, groups_named sn a gs -> length gs <= K ->
+  groups_ok f_name (map (name_idx sn) (seq a K)) gs.
+Proof.
+  induction gs as [|g gs IH]; intros a K Hn HK; [exact I|].
+  destruct K as [|K]; [cbn in HK; lia|]. destruct Hn as [Hg Hn].
+  cbn [seq map groups_ok]. split; [exact Hg|]. apply IH; [exact Hn|cbn in HK; lia].
+Qed.
+
+Lemma groups_named_in sn : forall gs a x, groups_named sn a gs -> In x (concat gs) ->
+  exists i, f_name x = Some (name_idx sn i).
+Proof.
+  induction gs as [|g gs IH]; intros a x Hn Hx; [destruct Hx|].
+  destruct Hn as [Hg Hn]. cbn [concat] in Hx. apply in_app_or in Hx. destruct Hx as [Hx|Hx].
+  - exists a. now apply Hg.
+  - now apply (IH (S a)).
+Qed.
+
+Lemma name_idx3_not_st sn i : length sn = 3 -> name_none_or_st (Some (name_idx sn i)) = false.
+Proof.
+  destruct sn as [|a [|b [|c [|]]]]; try discriminate. intros _.
+  unfold name_none_or_st, opt_is_none, opt_eqb, name_idx. cbn [orb unbs app streqb leqb].
+  now rewrite !andb_false_r.
+Qed.
+
+Lemma seg_slots_groups sn st (inf : bool) n last (gs : list (list field)) :
+  length sn = 3 -> st_ordered st = Some (map (name_idx sn) (seq 1 n)) ->
+  (N.of_nat n <= last)%N ->
+  length gs <= (if inf then N.to_nat last else n) ->
+  groups_named sn 1 gs -> no_trail gs ->
+  seg_slots (mk_seg sn st inf (N.of_nat n) last (concat gs)) false = map slot_of gs.
+Proof.
+  intros H3 Ho Hl HK Hn Ht. unfold seg_slots.
+  cbn [s_st s_inf s_name s_children s_last s_last_allowed]. rewrite Ho, Nat2N.id.
+  rewrite (filter_nothing (fun c => name_none_or_st (f_name c))).
+  2:{ intros x Hx. destruct (groups_named_in sn gs 1 x Hn Hx) as [i ->]. now apply name_idx3_not_st. }
+  cbn [map]. rewrite app_nil_r.
+  set (ch := concat gs).
+  set (K := if inf then N.to_nat last else n) in *.
+  assert (E : map (fun k => named f_name k ch) (map (name_idx sn) (seq 1 n)) ++
+              (if inf then map (fun i => named f_name (name_idx sn i) ch) (seq (S n) (N.to_nat last - n)) else [])
+              = map (fun k => named f_name k ch) (map (name_idx sn) (seq 1 K))).
+  { subst K. destruct inf.
+    - rewrite <- (map_map (name_idx sn) (fun k => named f_name k ch) (seq (S n) _)).
+      rewrite <- map_app, <- map_app. do 2 f_equal.
+      replace (N.to_nat last) with (n + (N.to_nat last - n)) at 2 by lia.
+      now rewrite seq_app.
+    - now rewrite app_nil_r. }
+  rewrite E.
+  pose proof (fill_by_name f_name (map (name_idx sn) (seq 1 K)) gs [] (name_idx_NoDup _ _ _)
+                (groups_named_ok sn gs 1 K Hn HK)) as F. cbn [app] in F.
+  subst ch. rewrite F by (intros x []).
+  now apply trim_slots_canon.
+Qed.
+
+Lemma enc_segment_groups sn st (inf : bool) n last (gs : list (list field)) fs :
+  length sn = 3 -> streqb sn (unbs "MSH") = false ->
+  st_ordered st = Some (map (name_idx sn) (seq 1 n)) ->
+  (N.of_nat n <= last)%N ->
+  length gs <= (if inf then N.to_nat last else n) ->
+  groups_named sn 1 gs -> Forall2 group_enc fs gs -> no_trail fs ->
+  enc_segment t e (mk_seg sn st inf (N.of_nat n) last (concat gs)) false = Ok (bjoin (fsep e) (sn :: fs)).
+Proof.
+  intros H3 Hm Ho Hl HK Hn Hg Ht. unfold enc_segment.
+  rewrite (seg_slots_groups sn st inf n last gs H3 Ho Hl HK Hn (group_enc_no_trail fs gs Hg Ht)).
+  rewrite (enc_seg_slots_groups fs gs Hg). cbn [s_name]. rewrite Hm. reflexivity.
 Qed.
 
 End Core.
